@@ -287,3 +287,99 @@ def rate_manifold_oracle(ctx, A, f, dA, df, mphi, case, where="direct"):
     if z.any():
         ctx.check(f"zero_volume_zero_rate[{where}]", bool(np.all(df[z] == 0)), case,
                   key="zero_volume_zero_rate")
+
+
+# =============================================================================================
+# paired executions
+
+
+def hostile_rotation(rng):
+    r = rng.random()
+    from scipy.spatial.transform import Rotation
+
+    if r < 0.5:
+        return "haar", gen.haar(rng)
+    if r < 0.65:
+        return "signed_perm", gen.SIGNED_PERMS[int(rng.integers(24))].copy()
+    if r < 0.8:
+        ax = rng.normal(size=3)
+        ax /= np.linalg.norm(ax)
+        return "pi_rotation", Rotation.from_rotvec(np.pi * ax).as_matrix()
+    if r < 0.9:
+        return "tiny", Rotation.from_rotvec(rng.normal(size=3) * 1e-8).as_matrix()
+    return "identity", np.eye(3)
+
+
+class PairRun:
+    """Drive two minerals through related histories under the apply_gbs recorder and compare
+    every stored snapshot.  ``mapA(A1_k) -> expected A2_k``; volumes must agree; F via ``mapF``."""
+
+    def __init__(self, ctx, pydrex, mon, case, H, label):
+        self.ctx, self.pydrex, self.mon, self.case, self.H, self.label = ctx, pydrex, mon, case, H, label
+
+    def _run(self, m, **kw):
+        mon = self.mon
+        last = []
+        mon.record_gbs = True
+        mon.gbs_calls = []
+
+        def on_update(i, a, b, F):
+            c = mon.gbs_calls[-1] if mon.gbs_calls else None
+            last.append(None if c is None else (c["f_in"] < c["chi"] / c["n"], c["f_in"], c["chi"] / c["n"]))
+            mon.gbs_calls = []
+
+        try:
+            F = self.H.run(m, on_update=on_update, **kw)
+        finally:
+            mon.record_gbs = False
+            mon.gbs_calls = []
+        return F, last
+
+    def compare(self, m1, m2, kw1, kw2, mapA, mapF, tol_of, exact=False):
+        ctx, case, lab = self.ctx, self.case, self.label
+        try:
+            F1, g1 = self._run(m1, **kw1)
+            F2, g2 = self._run(m2, **kw2)
+        except Exception as e:
+            ctx.check(f"{lab}:pair_runs_complete", False, case, key=f"raises/{type(e).__name__}",
+                      exc=f"{type(e).__name__}: {str(e)[:200]}")
+            return False
+        nup = len(m1.orientations) - 1
+        if len(m2.orientations) != len(m1.orientations):
+            ctx.check(f"{lab}:same_snapshot_count", False, case)
+            return False
+        diverged = False
+        for k in range(1, nup + 1):
+            a, b = g1[k - 1], g2[k - 1]
+            if a is not None and b is not None:
+                flips = a[0] != b[0]
+                if flips.any():
+                    thr = a[2]
+                    band = 0.01 * thr + 3e-4
+                    inband = (np.abs(a[1][flips] - thr) <= band) & (np.abs(b[1][flips] - thr) <= band)
+                    ctx.check(f"{lab}:gbs_mask_agrees_outside_tolerance_band", bool(inband.all()), case,
+                              key="gbs_mask_mismatch", update=k, n_flips=int(flips.sum()),
+                              worst=float(np.abs(a[1][flips] - thr).max()), thr=float(thr))
+                    ctx.count(f"{lab}:legit_threshold_flip_histories")
+                    diverged = True
+                    break
+            tol = tol_of(k)
+            expA = mapA(m1.orientations[k])
+            eA = float(np.abs(m2.orientations[k] - expA).max())
+            ef = float(np.abs(m2.fractions[k] - m1.fractions[k]).max())
+            ctx.extreme(f"{lab}:dA/tol", eA / tol)
+            ctx.extreme(f"{lab}:df/tol", ef / tol)
+            ctx.extreme(f"{lab}:dA", eA)
+            ctx.extreme(f"{lab}:df", ef)
+            ok = eA <= tol and ef <= tol
+            if exact:
+                ctx.count(f"{lab}:bit_identical" if (eA == 0 and ef == 0) else f"{lab}:not_bit_identical")
+            ctx.check(f"{lab}:textures_related", ok, case, update=k, err_A=eA, err_f=ef, tol=tol)
+            if not ok:
+                break
+        if not diverged:
+            tol = tol_of(nup)
+            eF = float(np.abs(F2 - mapF(F1)).max() / max(1.0, np.abs(F1).max()))
+            ctx.extreme(f"{lab}:dF/tol", eF / tol)
+            ctx.check(f"{lab}:deformation_gradient_related", eF <= tol, case, err=eF, tol=tol)
+        return True
